@@ -44,6 +44,41 @@ def sh(cmd, cwd=None, env=None, timeout=None, check=True):
     return p
 
 
+def _source_hash():
+    """Content hash of the code under test (everything cargo compiles from the repository)."""
+    h = hashlib.sha256()
+    h.update(REPO.encode())
+    for root in (os.path.join(REPO, "src", "cwe_checker_lib"), os.path.join(REPO, "src", "caller")):
+        for d, dirs, files in sorted(os.walk(root)):
+            dirs.sort()
+            if "target" in dirs:
+                dirs.remove("target")
+            for f in sorted(files):
+                if f.endswith((".rs", ".toml", ".json", ".lock")):
+                    fp = os.path.join(d, f)
+                    h.update(fp.encode())
+                    with open(fp, "rb") as fh:
+                        h.update(fh.read())
+    for f in ("Cargo.toml", "Cargo.lock"):
+        with open(os.path.join(REPO, f), "rb") as fh:
+            h.update(fh.read())
+    return h.hexdigest()
+
+
+def _clean_if_sources_changed(stamp, cwd, packages, target_dir, extra):
+    """cargo's freshness check is mtime based: a source file restored with an OLD mtime (rsync -a, a
+    re-pointed `repo` symlink, some checkouts) would silently keep the previous build.  Whenever the
+    CONTENT of the code under test differs from what was built last, forget its artefacts."""
+    os.makedirs(BUILD, exist_ok=True)
+    cur = _source_hash()
+    old = open(stamp).read() if os.path.exists(stamp) else None
+    if old != cur:
+        if old is not None and os.path.exists(target_dir):
+            cmd = ["cargo", "clean", "--offline"] + [x for p in packages for x in ("-p", p)] + (extra or [])
+            sh(cmd, cwd=cwd, timeout=600, check=False)
+        open(stamp, "w").write(cur)
+
+
 def build_harness():
     """cargo build of the harness crate; its path dependency is /repo's working tree, so every check
     rebuilds the code under test as it is now."""
@@ -51,6 +86,7 @@ def build_harness():
     lock_dst = os.path.join(HARNESS, "Cargo.lock")
     if not os.path.exists(lock_dst):
         shutil.copy(lock_src, lock_dst)
+    _clean_if_sources_changed(os.path.join(BUILD, "src_hash_harness"), HARNESS, ["cwe_checker_lib"], os.path.join(BUILD, "target"), None)
     t = time.time()
     p = sh(["cargo", "build", "--offline", "--bin", "cwe_conf"], cwd=HARNESS, timeout=3600, check=False)
     if p.returncode != 0:
@@ -64,6 +100,8 @@ def build_harness():
 
 def build_cli():
     """Build the real cwe_checker binary (caller crate) with the hook guard enabled."""
+    _clean_if_sources_changed(os.path.join(BUILD, "src_hash_cli"), REPO, ["cwe_checker_lib", "cwe_checker"], CLI_TARGET,
+                              ["--target-dir", CLI_TARGET])
     t = time.time()
     flags = "--cfg %s --check-cfg cfg(%s)" % (GUARD, GUARD)
     p = sh(["cargo", "build", "--offline", "-p", "cwe_checker", "--target-dir", CLI_TARGET,
